@@ -2,7 +2,7 @@
    arrays: what it writes, and what the written opcodes decode to. *)
 From Coq Require Import List Arith NArith ZArith Lia Bool String.
 Import ListNotations.
-From Cffi Require Import C25.Model C07.Model C07.Realize C07.PyModel C07.Lexer C07.Tokens C07.Specs C07.Parse.
+From Cffi Require Import C25.Model C07.Model C07.Realize C07.PyModel C07.Lexer C07.Tokens C07.Tables C07.Specs C07.Parse.
 
 Local Open Scope nat_scope.
 
@@ -75,6 +75,24 @@ Proof.
   cbn. rewrite (Hj f) by lia. reflexivity.
 Qed.
 
+(* a function without parameters: OP_FUNCTION directly followed by OP_FUNCTION_END *)
+Lemma dec_func0 out i j flags n m : nth_error out i = Some (OP OP_FUNCTION j) ->
+  nth_error out (S i) = Some (OP OP_FUNCTION_END flags) -> (flags = 0 \/ flags = 2)%Z ->
+  decodes n out j m -> decodes (S n) out (Z.of_nat i) (MFun m [] false).
+Proof.
+  intros H He Hfl Hj fuel Hf. destruct fuel as [|f]; [lia|]. cbn [decode].
+  rewrite nthZ_nat, H. rewrite GETOP_OP, GETARG_OP by (cbv; split; [discriminate | reflexivity]).
+  cbn [Z.eqb OP_FUNCTION OP_PRIMITIVE OP_POINTER OP_ARRAY OP_OPEN_ARRAY OP_STRUCT_UNION OP_ENUM Pos.eqb].
+  rewrite (Hj f) by lia.
+  replace (Z.to_nat (Z.of_nat i + 1)) with (S i) by lia.
+  destruct (nth_error_split _ _ He) as (l1 & l2 & E & El).
+  assert (Hsk : skipn (S i) out = OP OP_FUNCTION_END flags :: l2).
+  { rewrite E. rewrite <- El. rewrite skipn_app, Nat.sub_diag, skipn_all. reflexivity. }
+  rewrite Hsk.
+  rewrite GETOP_OP, GETARG_OP by (cbv; split; [discriminate | reflexivity]).
+  destruct Hfl as [-> | ->]; reflexivity.
+Qed.
+
 End Dec.
 
 (* ---------------------------------------------------------------- lists *)
@@ -91,6 +109,18 @@ Lemma set_nth_other : forall l i j v, i <> j -> nth_error (set_nth l i v) j = nt
 Proof. induction l; intros [|i] [|j] v H; cbn; auto; try congruence. Qed.
 
 (* ---------------------------------------------------------------- the simple declarators *)
+Section Decl.
+(* the integer constants of the declaration context (macros and enumerators) *)
+Variable gl : list (str * gkind).
+
+(* a name used as an array length: a non-negative constant that fits in ssize_t *)
+Definition const_len (n : str) : option Z :=
+  match assoc_str gl n with
+  | Some (GInt _ neg value) =>
+    if (neg =? 0)%Z && (0 <=? value)%Z && (value <=? MAX_SSIZE_T)%Z then Some value else None
+  | _ => None
+  end.
+
 Definition alen_val (a : alen) : option (option Z) :=
   match a with
   | ALOpen => Some None
@@ -98,7 +128,7 @@ Definition alen_val (a : alen) : option (option Z) :=
                | Some n => if (n <=? MAX_SSIZE_T)%Z then Some (Some n) else None
                | None => None
                end
-  | ALName _ => None
+  | ALName n => if ident_okb n then option_map Some (const_len n) else None
   end.
 
 Definition hitem_plain (h : hitem) : bool := match h with HAbi _ => false | _ => true end.
@@ -112,7 +142,12 @@ Inductive sdecl : decl -> Prop :=
 | SD1 : forall hdr arrays d,
     forallb hitem_plain hdr = true -> Forall (fun a => alen_val a <> None) arrays ->
     sdecl d -> starts_star d = true ->
-    sdecl (D hdr None (Some (None, d)) [] arrays).
+    sdecl (D hdr None (Some (None, d)) [] arrays)
+(* a pointer to a function without parameters: hdr ( d ) ( )   or   hdr ( d ) ( void ) *)
+| SD2 : forall hdr d void,
+    forallb hitem_plain hdr = true ->
+    sdecl d -> starts_star d = true ->
+    sdecl (D hdr None (Some (None, d)) [F [] void false] []).
 
 Definition hkind (h : hitem) : kind :=
   match h with HStar => KChar c_star | HQ q => qkind q | HAbi a => KKw (if a then K_stdcall else K_cdecl) end.
@@ -124,15 +159,23 @@ Definition alen_toks (a : alen) : kinds_texts :=
   | ALName n => [(KChar c_lbr, [c_lbr]); (KIdent, n); (KChar c_rbr, [c_rbr])]
   end.
 
+(* an empty parameter list *)
+Definition fs_toks (f : fsuffix) : kinds_texts :=
+  match f with
+  | F _ void _ => [(KChar c_lpar, [c_lpar])] ++ (if void then [(KKw K_void, s2l "void")] else [])
+                  ++ [(KChar c_rpar, [c_rpar])]
+  end.
+
 (* kinds and texts of the tokens of a simple declarator *)
 Fixpoint sdecl_toks (d : decl) : kinds_texts :=
   match d with
-  | D hdr _ group _ arrays =>
+  | D hdr _ group funcs arrays =>
     map (fun h => (hkind h, hitem_token h)) hdr
     ++ match group with
        | Some (_, d') => [(KChar c_lpar, [c_lpar])] ++ sdecl_toks d' ++ [(KChar c_rpar, [c_rpar])]
        | None => []
        end
+    ++ List.concat (map fs_toks funcs)
     ++ List.concat (map alen_toks arrays)
   end.
 
@@ -142,9 +185,9 @@ Definition arr_ops (a : alen) : nat := match a with ALOpen => 1 | _ => 2 end.
 
 Fixpoint nops (d : decl) : nat :=
   match d with
-  | D hdr _ group _ arrays =>
+  | D hdr _ group funcs arrays =>
     nstars hdr + match group with Some (_, d') => S (nops d') | None => 0 end
-    + list_sum (map arr_ops arrays)
+    + 3 * List.length funcs + list_sum (map arr_ops arrays)
   end.
 
 Definition lenval (a : alen) : option Z := match alen_val a with Some v => v | None => None end.
@@ -154,14 +197,30 @@ Definition wrap_ptrs (n : nat) (m : mty) : mty := Nat.iter n MPtr m.
 (* the type a declarator builds around the base type *)
 Fixpoint apply_decl (d : decl) (m : mty) : mty :=
   match d with
-  | D hdr _ group _ arrays =>
+  | D hdr _ group funcs arrays =>
     let m1 := wrap_ptrs (nstars hdr) m in
     let m2 := fold_right (fun a acc => MArr acc (lenval a)) m1 arrays in
+    let m3 := fold_right (fun _ acc => MFun acc [] false) m2 funcs in
     match group with
-    | Some (_, d') => apply_decl d' m2
-    | None => m2
+    | Some (_, d') => apply_decl d' m3
+    | None => m3
     end
   end.
+
+End Decl.
+
+Lemma const_len_search gl n v : table_ok (map fst gl) -> const_len gl n = Some v ->
+  exists gi e, search_sorted (map fst gl) n = Some gi /\ nth gi gl ([], GOther) = (n, GInt e 0 v) /\
+               (v <= MAX_SSIZE_T)%Z.
+Proof.
+  intros Ht H. unfold const_len in H. destruct (assoc_str gl n) as [[e neg value|]|] eqn:E; try discriminate.
+  destruct (neg =? 0)%Z eqn:E0; [|discriminate]. destruct (0 <=? value)%Z; [|discriminate].
+  destruct (value <=? MAX_SSIZE_T)%Z eqn:E1; [|discriminate]. cbn in H. inversion H; subst.
+  apply Z.eqb_eq in E0. subst. apply Z.leb_le in E1.
+  destruct (assoc_some_nth _ _ _ E) as [gi Hi]. exists gi, e. split; [|split; [|exact E1]].
+  - apply (search_member _ _ _ Ht). rewrite nth_error_map, Hi. reflexivity.
+  - apply nth_error_nth with (d := ([], GOther)) in Hi. exact Hi.
+Qed.
 
 (* ---------------------------------------------------------------- running the model *)
 Section Run.
@@ -171,6 +230,8 @@ Variable g : genv.
 Variable input : str.
 Variable toks : kinds_texts.
 Hypothesis L : lexed input toks.
+Notation gl := (c_globals cx).
+Hypothesis Hgl : table_ok (map fst gl).
 
 Notation T := (T input).
 Notation K := (K toks).
@@ -294,22 +355,22 @@ Lemma retarget_pure_length o pc result target :
 Proof. destruct pc; cbn; [reflexivity | apply set_nth_length]. Qed.
 
 (* ---- brackets *)
-Fixpoint finish_arrays (arrs : list alen) (o : list Z) (pc : pcur) (result : Z) : list Z * pcur * Z :=
+Fixpoint finish_arrays (gl0 : list (str * gkind)) (arrs : list alen) (o : list Z) (pc : pcur) (result : Z) : list Z * pcur * Z :=
   match arrs with
   | [] => (o, pc, result)
   | a :: r =>
     let oi := Z.of_nat (List.length o) in
     let '(o1, r1) := retarget_pure o pc result oi in
-    let o2 := o1 ++ match lenval a with
+    let o2 := o1 ++ match lenval gl0 a with
                     | Some n => [OP OP_ARRAY 0; n]
                     | None => [OP OP_OPEN_ARRAY 0]
                     end in
-    finish_arrays r o2 (POut oi) r1
+    finish_arrays gl0 r o2 (POut oi) r1
   end.
 
 Lemma finish_arrays_length : forall arrs o pc result,
-  Forall (fun a => alen_val a <> None) arrs ->
-  List.length (fst (fst (finish_arrays arrs o pc result))) = List.length o + list_sum (map arr_ops arrs).
+  Forall (fun a => alen_val gl a <> None) arrs ->
+  List.length (fst (fst (finish_arrays gl arrs o pc result))) = List.length o + list_sum (map arr_ops arrs).
 Proof.
   induction arrs as [|a arrs IH]; intros o pc result Hv; cbn [finish_arrays map list_sum]; [cbn; lia|].
   inversion Hv as [|? ? Ha Hv']; subst.
@@ -321,19 +382,20 @@ Proof.
   - cbn [List.length list_sum fold_right]. fold (list_sum (map arr_ops arrs)). lia.
   - destruct (py_int t) as [v|]; [|congruence]. destruct (v <=? MAX_SSIZE_T)%Z; [|congruence].
     cbn [List.length list_sum fold_right]. fold (list_sum (map arr_ops arrs)). lia.
-  - congruence.
+  - destruct (ident_okb n); [|congruence]. destruct (const_len gl n) as [v|]; [|cbn in Ha; congruence].
+    cbn [option_map List.length list_sum fold_right]. fold (list_sum (map arr_ops arrs)). lia.
 Qed.
 
 Definition not_lbr (k : kind) : Prop := k <> KChar c_lbr.
 
 Lemma brackets_run : forall arrs f i o pc result,
-  At i (List.concat (map alen_toks arrs)) -> Forall (fun a => alen_val a <> None) arrs ->
+  At i (List.concat (map alen_toks arrs)) -> Forall (fun a => alen_val gl a <> None) arrs ->
   not_lbr (K (i + List.length (List.concat (map alen_toks arrs)))) ->
   pc_ok o pc ->
   List.length o + list_sum (map arr_ops arrs) <= osz -> List.length arrs < f ->
   brackets osz cx f (T i o) pc result =
-  Ok (T (i + List.length (List.concat (map alen_toks arrs))) (fst (fst (finish_arrays arrs o pc result))),
-      snd (fst (finish_arrays arrs o pc result)), snd (finish_arrays arrs o pc result)).
+  Ok (T (i + List.length (List.concat (map alen_toks arrs))) (fst (fst (finish_arrays gl arrs o pc result))),
+      snd (fst (finish_arrays gl arrs o pc result)), snd (finish_arrays gl arrs o pc result)).
 Proof.
   induction arrs as [|a arrs IH]; intros f i o pc result Hat Hv Hstop Hpc Hroom Hf;
     destruct f as [|f]; try (cbn in Hf; lia).
@@ -395,7 +457,33 @@ Proof.
       * replace (S (S (S i))) with (i + 3) by lia. exact Hat.
       * replace (S (S (S i))) with (i + 3) by lia. exact Hstop.
       * rewrite app_length. cbn. lia.
-    + cbn in Hva. congruence.
+    + (* [ name ] *)
+      cbn [alen_toks] in Ha. apply At_cons in Ha as [H0 Ha]. apply At_cons in Ha as [H1 Ha].
+      apply At_cons in Ha as [H2 _].
+      cbn [alen_val] in Hva.
+      destruct (ident_okb n) eqn:Eid; [|congruence].
+      destruct (const_len gl n) as [v|] eqn:Ec; [|cbn in Hva; congruence].
+      destruct (const_len_search _ _ _ Hgl Ec) as (gi & e & Hs & Hn & Hmax).
+      cbn [brackets]. unfold is_ch. rewrite kind_T', (At_K _ _ H0). cbn [fst kind_eqb].
+      rewrite N.eqb_refl. cbv iota zeta. rewrite !T_out. rewrite Hret. cbn [bind]. rewrite T_next.
+      rewrite kind_T', (At_K _ _ H1). cbn [fst kind_eqb negb].
+      unfold array_length. rewrite kind_T', (At_K _ _ H1). cbn [fst].
+      destruct (At_text _ _ o1 H1) as [Htx Hsz]. cbn [snd] in Htx, Hsz.
+      rewrite Htx, Hs, Hn. cbn [snd]. rewrite Z.eqb_refl. cbn [andb orb].
+      rewrite Z.gtb_ltb.
+      replace (MAX_SSIZE_T <? v)%Z with false by (symmetry; apply Z.ltb_ge; exact Hmax).
+      cbn [bind]. rewrite T_next.
+      cbn [arr_ops] in Hroom.
+      rewrite write_ds_ok by lia. cbn [bind].
+      rewrite write_ds_ok by (rewrite app_length; cbn; lia). cbn [bind].
+      rewrite kind_T', (At_K _ _ H2). cbn [fst kind_eqb]. rewrite N.eqb_refl. cbn [negb].
+      rewrite T_next. cbn [alen_toks List.length]. unfold lenval. cbn [alen_val]. rewrite Eid, Ec.
+      cbn [option_map].
+      replace (i + 3) with (S (S (S i))) by lia. rewrite <- app_assoc. cbn [app].
+      rewrite IH; auto; try lia.
+      * replace (S (S (S i))) with (i + 3) by lia. exact Hat.
+      * replace (S (S (S i))) with (i + 3) by lia. exact Hstop.
+      * rewrite app_length. cbn. lia.
 Qed.
 
 End Run.
